@@ -107,3 +107,6 @@ Definition v_file_long (mem file : list triple) (rts : list (list int)) (count :
   verdict (list_eqb triple_eqb (read_pairs (write_rows mem (zls rts))) file
            && (Z.of_nat (length mem) =? count) && (length rts =? length mem)%nat)
           (same_pairs_b file mem && (count =? Z.of_nat (length mem))).
+
+(* a sequence of calls in one process: the verdicts of its steps combined bit by bit *)
+Definition vseq (l : list Z) : Z := verdict (forallb Z.even l) (forallb (fun v => v <? 2) l).
